@@ -63,8 +63,12 @@ func init() {
 	}
 	properties["C10"] = &property{ID: "C10", Level: "translation_validation", Kinds: []string{"simplify"},
 		Harnesses: []harness{
-			{Name: "gsxC10BoolSimplify", Pkg: "checkers", Quick: map[string]int{"depth": 1, "strlen": 4, "paths": 6000, "wall_s": 120}, Thorough: map[string]int{"depth": 2, "strlen": 4, "paths": 40000, "wall_s": 900},
+			{Name: "gsxC10BoolSimplifyInt", Pkg: "checkers", Quick: map[string]int{"depth": 1, "strlen": 4, "paths": 3000, "wall_s": 60}, Thorough: map[string]int{"depth": 2, "strlen": 4, "paths": 15000, "wall_s": 300},
 				NoValidate: true, Tolerant: true, ReplayFn: replayC10, MustReach: []string{"simplified"}},
+			{Name: "gsxC10BoolSimplifyFloat", Pkg: "checkers", Quick: map[string]int{"depth": 1, "strlen": 4, "paths": 3000, "wall_s": 60}, Thorough: map[string]int{"depth": 2, "strlen": 4, "paths": 15000, "wall_s": 300},
+				NoValidate: true, Tolerant: true, ReplayFn: replayC10},
+			{Name: "gsxC10BoolSimplifyNamedFloat", Pkg: "checkers", Quick: map[string]int{"depth": 1, "strlen": 4, "paths": 3000, "wall_s": 60}, Thorough: map[string]int{"depth": 2, "strlen": 4, "paths": 15000, "wall_s": 300},
+				NoValidate: true, Tolerant: true, ReplayFn: replayC10},
 		},
 		Assumptions: []string{"integer operands without overflow (as the property allows); float64 operands over the rationals in half units (NaN/Inf not modelled); literals: decimal or octal integer literals of up to 3 digits"}}
 	properties["C12"] = &property{ID: "C12", Level: "model_checking", Kinds: []string{"claim"},
